@@ -1158,7 +1158,9 @@ def build_service(methods: list[dict], env: Env, *, raises: dict | None = None) 
     """
     from typing import Protocol
 
-    ns: dict[str, Any] = {"Protocol": Protocol}
+    from vgi_rpc.rpc import Stream
+
+    ns: dict[str, Any] = {"Protocol": Protocol, "Stream": Stream, "PState": _producer_state_cls(), "OUT_SCHEMA": pa.schema([("i", pa.int64())])}
     psrc = ["class P(Protocol):", '    """Generated echo service."""']
     isrc = ["class Impl:", "    def __init__(self, rec, raises):", "        self._rec = rec", "        self._raises = raises"]
     for i, m in enumerate(methods):
@@ -1172,20 +1174,35 @@ def build_service(methods: list[dict], env: Env, *, raises: dict | None = None) 
                 s += f" = D_{i}_{j}"
             sig.append(s)
         rp = m["params"][m["ret"]]
-        ns[f"R_{i}"] = annotation(m.get("ret_t") or rp["t"], env, where="param")
+        ns[f"R_{i}"] = Stream[ns["PState"]] if m.get("stream") else annotation(m.get("ret_t") or rp["t"], env, where="param")
         star = "*, " if m.get("kwonly") else ""
         head = f"    def {m['name']}(self, {star}{', '.join(sig)}) -> R_{i}:"
         psrc += [head, f'        """Echo {rp["name"]}."""', "        ..."]
         kw = ", ".join(f"{p['name']!r}: {p['name']}" for p in ps)
         isrc += [head, f"        self._rec.append(({m['name']!r}, {{{kw}}}))",
                  f"        if {m['name']!r} in self._raises:", f"            raise self._raises[{m['name']!r}]()",
-                 f"        return {rp['name']}"]
+                 "        return Stream(output_schema=OUT_SCHEMA, state=PState())" if m.get("stream") else f"        return {rp['name']}"]
     exec("\n".join(psrc) + "\n\n" + "\n".join(isrc) + "\n", ns)  # noqa: S102 - generated source, fresh namespace
     rec: list = []
     return ns["P"], ns["Impl"](rec, raises or {}), rec
 
 
 import contextlib  # noqa: E402
+
+_PSTATE: list[type] = []
+
+
+def _producer_state_cls() -> type:
+    """A trivial producer state (finishes immediately) used by generated stream methods."""
+    if not _PSTATE:
+        from vgi_rpc.rpc import ProducerState
+
+        def produce(self: Any, out: Any, ctx: Any) -> None:
+            out.finish()
+
+        _PSTATE.append(dataclasses.make_dataclass("PState", [("n", int, dataclasses.field(default=0))], bases=(ProducerState,),
+                                                  namespace={"produce": produce}))
+    return _PSTATE[0]
 
 
 class Conn:
